@@ -13,6 +13,8 @@ TOKENS = [
     # sections
     "Sec", "Sec.", "Section", "Sections", "Secs", "§", "Sec 14", "Section 14", "Sec 14:", "Sec. 15:", "Sections 1 - 3", "Sec 1, 2 and 3:",
     "Sec 5 through Sec 2", "Secs 14 & 15", "§ 36", "Section 100", "Sec 0", "of Section 14", "in Section 15", "said Section 14", "within Sec 2",
+    # zero and zero-padded bounds
+    "Sec 0 - 3", "Sec 00 through 02", "Sections 3 - 0", "Sec 00", "Lots 0 - 2", "Lot 00", "Lot 0", "Lots 2 - 0", "Secs. 1 - 3", "Sects. 9 thru 7",
     # lots
     "Lot", "Lots", "Lot 1", "Lots 1 - 3", "Lot 2(38.29)", "L4", "Lots 1, 2 and 5", "Lot 3 [40.1]", "N/2 of Lot 1", "Lots 4 - 2", "Lot 1, Lot 1",
     # aliquots
@@ -26,7 +28,7 @@ TOKENS = [
     # connectives / punctuation
     ":", ",", ";", ".", "-", "–", "—", "and", "&", "through", "thru", "to", "of", "of the", "in", "all", "the", "/", "(", ")", "[", "]",
     # numbers
-    "1", "2", "14", "36", "100", "1000", "0", "40 acres", "38.29",
+    "1", "2", "3", "14", "36", "100", "1000", "0", "00", "000", "007", "40 acres", "38.29",
     # prose and flag triggers
     "less and except", "except", "limited to", "insofar as", "including", "surface to the base of", "depths", "formation", "wellbore", "well",
     "That part", "lying north of the river", "Beginning at a point", "thence north 200 feet", "equipment", "development", "right-of-way",
